@@ -42,6 +42,26 @@ CHECKS.update({
         "note": M1NOTE + " Dense-time reading as stated in spec/UPTimeSem.tla; plans of <= 3 steps.",
         "technique": "recorded validator verdicts judged by the TLA+ temporal semantics (UPTimeSem) evaluated by TLC",
     },
+    "C13": {
+        "text": "Subst.tla defines the reference substitution (top-down, maximal occurrences, no re-substitution inside inserted values, binder-aware, rebuilt through Not(Not x)=x) in two independent readings that TLC checks equal on every case (T1), plus the semantic corollary Eval(Subst(e,m)) = Eval(e) under the updated interpretation. TLC enumerates the (expression, map) case space (15k quick / 106k thorough: nested keys, keys under binders, keys inside inserted values, wrong-sort values); each case runs through FNode.substitute, env.substituter and a fresh Substituter; TLC judges syntactic equality with Subst(e,m), rejection of sort-incompatible maps and that a rejected call leaves the expression manager unchanged.",
+        "note": TRUST + " Dot/timing/trajectory operators and interpreted functions are not enumerated; numeric types unbounded; acceptance of interval-dependent numeric pairs is not judged.",
+        "technique": "TLA+ reference substitution evaluated by TLC over a TLC-enumerated case space; recorded results judged syntactically and semantically",
+    },
+    "C17": {
+        "text": "Linear.tla decides semantic monotonicity and affinity of a numeric expression by exhaustive evaluation on the finite declared domains (exact rationals via UPExpr!Eval); LinearAnalysis.tla models the checker's walk rules (as written and repaired) and TLC compares both with the real answers. TLC enumerates expressions to depth 2 (3-4 thorough) over bounded int fluents, a bounded parameter (negative and sign-straddling ranges), a static fluent and constants; LinearChecker.get_fluents (and Problem.kind's SIMPLE_NUMERIC_PLANNING decision) are recorded and judged: only-positive => non-decreasing, only-negative => non-increasing, linear => affine.",
+        "note": TRUST + " Domains are small integer boxes (3-4 values per fluent); nullary fluents; soundness only (an over-conservative analysis passes).",
+        "technique": "TLA+ semantic monotonicity/affinity decided by TLC on finite domains over TLC-enumerated expressions; recorded analysis results judged",
+    },
+    "C26": {
+        "text": "Valid time-triggered plans are SELECTED by TLC (UPTimeSem!TimeVerdict = VALID) from generated temporal/instantaneous problems and dependency-probe problems; the real conversions TT -> STN -> TT are recorded; PlanConvSTN.tla (reusing DeltaSTN's Floyd-Warshall) judges: is_consistent = satisfiability of the recorded difference constraints, the original times satisfy every constraint, the converted-back plan is a re-timing of the same instances, solves the STN and has TimeVerdict VALID.",
+        "note": M1NOTE + " Rational times scaled to integers by the lcm of denominators.",
+        "technique": "TLC-selected valid plans; recorded STN constraints judged by Floyd-Warshall in TLA+ and the converted-back plan by the TLA+ temporal semantics",
+    },
+    "C28": {
+        "text": "Durative problems inside TimedToSequential.supported_kind() are compiled by the real compiler; compiled plans (short sequences and simulator walks) are converted back by the real plan_back_conversion; TimedToSeqJudge.tla: SeqVerdict(compiled problem, plan) = VALID implies the conversion does not raise and UPTimeSem!TimeVerdict(original problem, converted plan) = VALID, with a dedicated clause for a duration outside its (possibly open, possibly fluent-dependent) interval.",
+        "note": M1NOTE,
+        "technique": "recorded compilation + plan back-conversion judged by the TLA+ sequential and temporal semantics (TLC)",
+    },
     "C31": {
         "text": "Generated finite-state problems with interpreted functions (finite tables) in conditions/effects, or with an oversubscription metric, are solved through interpreted_functions_planning[bfs] / oversubscription[bfs] (bfs = the exact breadth-first planner the property assumes, registered by the harness). TLC judges every returned plan with UPSeqSem!SeqVerdict on the original problem and explores the problem's whole reachable state space: a reported SOLVED_OPTIMALLY must have maximal gain among reachable goal states, and an UNSOLVABLE status / missing plan is only accepted when no reachable goal state exists.",
         "note": M1NOTE + " Assumes harness/bfsplanner.py is a correct underlying planner; state spaces are finite (Boolean/object fluents, bounded ints). The adversarial inner-status sequences of DESIGN.md (scripted engine) are not built.",
